@@ -10,10 +10,12 @@ Local Open Scope Z_scope.
 
 Definition IN : Z := 1.
 Definition OUT : Z := 2.
+Definition MID : Z := 3.    (* the intermediate denom of series routes *)
+Definition REST : Z := 4.   (* every other denom, summed *)
 
 (* ---------- projection of a model state ---------- *)
 Definition acct_keys (rcvs : list Z) : list (Z * Z) :=
-  [(MOD, IN); (MOD, OUT); (PROV, IN); (PROV, OUT); (ESC, IN); (ESC, OUT)] ++ flat_map (fun r => [(r, IN); (r, OUT)]) rcvs.
+  [(MOD, IN); (MOD, OUT); (PROV, IN); (PROV, OUT); (ESC, IN); (ESC, OUT); (MOD, MID); (MOD, REST)] ++ flat_map (fun r => [(r, IN); (r, OUT)]) rcvs.
 
 Fixpoint assoc (l : list ((Z * Z) * Z)) (a d : Z) : Z :=
   match l with
@@ -113,23 +115,25 @@ Definition corr (h : hist) : bool :=
 (* ---------- monitors: the property text on observed values ---------- *)
 Definition nz (l : list Z) (n : nat) : Z := nth n l 0.
 Definition vb (v : view) (n : nat) : Z := nz (v_bal v) n.
-(* positions in v_bal: 0 MOD in, 1 MOD out, 2 PROV in, 3 PROV out, 4 ESC in, 5 ESC out, then receivers *)
+(* positions in v_bal: 0 MOD in, 1 MOD out, 2 PROV in, 3 PROV out, 4 ESC in, 5 ESC out, 6 MOD mid, 7 MOD every
+   other denom (summed), then receivers *)
 Fixpoint sum_rcv (l : list Z) (par : bool) : Z * Z :=   (* sums of the (in, out) entries of receivers *)
   match l with
   | a :: b :: tl => let '(x, y) := sum_rcv tl par in (a + x, b + y)
   | _ => (0, 0)
   end.
-Definition rcv_in (v : view) : Z := fst (sum_rcv (skipn 6 (v_bal v)) true).
-Definition rcv_out (v : view) : Z := snd (sum_rcv (skipn 6 (v_bal v)) true).
+Definition rcv_in (v : view) : Z := fst (sum_rcv (skipn 8 (v_bal v)) true).
+Definition rcv_out (v : view) : Z := snd (sum_rcv (skipn 8 (v_bal v)) true).
 Definition live_sum (b : book) (d : Z) : Z :=
   fold_right (fun l n => if l_denom l =? d then n + l_amt l else n) 0 (b_live b).
 
 Definition all_obs (h : hist) (f : view -> obs -> bool) : bool :=
   forallb (fun '(_, o) => f (h_init h) o) (h_steps h).
 
-(* 1: the swap module's own account is left as it was, after every event *)
+(* 1: the swap module's own account is left as it was, in every denom, after every event *)
 Definition mon_module (h : hist) : bool :=
-  all_obs h (fun v0 o => (vb (o_view o) 0 =? vb v0 0) && (vb (o_view o) 1 =? vb v0 1)).
+  all_obs h (fun v0 o => (vb (o_view o) 0 =? vb v0 0) && (vb (o_view o) 1 =? vb v0 1) &&
+                         (vb (o_view o) 6 =? vb v0 6) && (vb (o_view o) 7 =? vb v0 7)).
 
 (* 2: every unit received is swapped, paid as interface fee, delivered to a receiver, or sent onward
       (in flight or acknowledged) *)
